@@ -215,6 +215,12 @@ def run(ctx):
             lg = zoo.legacy_gibbs_factory()()
             r1 = lg.sample(2, 1)
             r2 = lg.sample(2)
+        # a tuple key assigns one sampler class to several blocks (documented form of the legacy sampling strategy)
+        with zoo.quiet():
+            np.random.seed(79 + ctx.seed)
+            import cuqi
+            lg2 = cuqi.sampler.Gibbs(zoo.hier_joint(), {("d", "s"): cuqi.sampler.Conjugate, "x": cuqi.sampler.LinearRTO})
+            lg2.sample(3, 1)
         for name, fac in zoo.hybrid_gibbs_factories().items():
             with zoo.quiet():
                 np.random.seed(78 + ctx.seed)
